@@ -84,6 +84,13 @@ def regenerate(tier):
     # keep only what the obligation needs: the observers, and the methods that touch a written field an observer touches
     fields = {(o["type"], f) for o in obs for f in o["reads"] + o["writes"] if f in written.get(o["type"], ())}
     keep = [f for f in facts if any((f["type"], x) in fields for x in f["reads"] + f["writes"])]
+    # an access of a written field before the method's own Lock()/RLock(): not covered by the mutex although the method locks
+    pre = []
+    for f in facts:
+        fl = [x for x in (f.get("prelock") or []) if x in written.get(f["type"], ())]
+        if fl:
+            pre.append((f["type"], f["method"], fl))
+            broken.append(("lockfacts:access-before-lock:%s.%s" % (f["type"], f["method"]), "touches %s before taking the mutex it takes later in the same body" % ", ".join(fl)))
     esc = lambda x: x.replace("\\", "\\\\").replace('"', '\\"')
     row = lambda f: '  ⟨"%s", "%s", "%s", [%s], [%s]⟩' % (esc(f["type"]), esc(f["method"]), f["lock"],
                                                        ", ".join('"%s"' % esc(x) for x in f["reads"] if (f["type"], x) in fields),
@@ -92,7 +99,9 @@ def regenerate(tier):
         out.write("/- GENERATED by props/C18.py (tools/lockfacts + expect/c18_roles.json) from /repo — do not edit. -/\nimport Nic.Model.Lockset\nnamespace Nic.Gen.LockFacts\nopen Nic.Lockset\n\n")
         out.write("def facts : List Fact := [\n" + ",\n".join(row(f) for f in keep) + "\n]\n\n")
         out.write("def observers : List Fact := [\n" + ",\n".join(row(f) for f in obs) + "\n]\n\n")
-        out.write("def exempt : List String := [" + ", ".join('"%s"' % esc(x) for x in roles["exempt"]) + "]\n\nend Nic.Gen.LockFacts\n")
+        out.write("def exempt : List String := [" + ", ".join('"%s"' % esc(x) for x in roles["exempt"]) + "]\n\n")
+        out.write("/-- methods that take the receiver's mutex but touch a written field of the receiver BEFORE taking it -/\n")
+        out.write("def prelocks : List (String × String × List String) := [" + ", ".join('("%s", "%s", [%s])' % (esc(t), esc(m), ", ".join('"%s"' % esc(x) for x in fl)) for t, m, fl in pre) + "]\n\nend Nic.Gen.LockFacts\n")
     return dict(broken=broken, obligations=len(obs) + 1, discharged=len(obs) + 1 - len(broken),
                 summary=dict(methods=len(facts), table_rows=len(keep), observers=len(obs), exempt=len(roles["exempt"])))
 
